@@ -31,6 +31,9 @@ func init() {
 }
 
 func runC16(c *an.Ctx) {
+	// ---- R7: every query attributed to a profile is recorded for billing, whatever its logging settings
+	c.Floor("C16-R7", 1)
+	c.Borrow("C16-R7", runC15, func(o an.Obligation) bool { return o.Rule == "C15-R1" && strings.Contains(o.Key, "recordQueryInfo") })
 	c.Floor("C16-R1", 6)
 	c.Floor("C16-R2", 1)
 	c.Floor("C16-R3", 1)
